@@ -646,6 +646,27 @@ func genCase(t *rapid.T) Case {
 				b.Kids[0].Mandatory = ""
 				m.Augments = append(m.Augments, b)
 				m.AugmentsReversed = g.Bool("augreversed")
+				if g.Chance(1, 2, "augchain3") {
+					// a chain of three, written in any of the six orders
+					od := &sg.Node{Kind: "container", Name: x.id("oad"), Kids: []*sg.Node{{Kind: "leaf", Name: "k", Type: &sg.TypeSpec{Name: "string"}}}}
+					b.Kids = append(b.Kids, od)
+					c3 := &sg.Augment{Target: b.Target + "/" + m.Prefix + ":" + od.Name, Kids: []*sg.Node{x.leaf(x.id("oae"))}}
+					c3.Kids[0].Mandatory = ""
+					m.Augments = append(m.Augments, c3)
+					n := len(m.Augments)
+					perm := make([]int, n)
+					for i := range perm {
+						perm[i] = i
+					}
+					// the three links are the last three entries: permute them among their own positions
+					orders := [][3]int{{0, 1, 2}, {0, 2, 1}, {1, 0, 2}, {1, 2, 0}, {2, 0, 1}, {2, 1, 0}}
+					o := orders[g.Pick(6, "augorder")]
+					for i := 0; i < 3; i++ {
+						perm[n-3+i] = n - 3 + o[i]
+					}
+					m.AugmentsReversed = false
+					m.AugmentsOrder = perm
+				}
 			}
 		}
 		if len(m.Imports) > 0 && g.Chance(2, 3, "xaug") {
